@@ -335,3 +335,17 @@ Proof.
     destruct Hname as [_ Hn]. apply Hn in Hz. vm_compute in Hz. discriminate. }
   rewrite H2. cbn [ibind iret app]. rewrite ?app_nil_r. reflexivity.
 Qed.
+
+(* ---- definition followed by invocation ---- *)
+Lemma ends_with_q_false name : (forall x, In x name -> x <> 63) -> ends_with [63] name = false.
+Proof.
+  intros H. unfold ends_with. change (frev [63]) with [63]. rewrite frev_rev.
+  assert (Hin : forall y, In y (rev name) -> In y name) by (intros y Hy; apply in_rev; exact Hy).
+  unfold str, char in *. destruct (rev name) as [|y t]; [reflexivity|]. cbn [starts_with].
+  assert (Hy : In y name) by (apply Hin; left; reflexivity).
+  apply H in Hy. replace (63 =? y) with false; [reflexivity|]. symmetry. apply N.eqb_neq. congruence.
+Qed.
+
+Lemma name_set_q : set_match false name_set 63 = false.
+Proof. vm_compute. reflexivity. Qed.
+
